@@ -16,7 +16,7 @@ RULE = ("phase 1 populates a filesystem store through a writable backend (seeded
 ASSUMPTIONS = ["CPython audit events cover every mutating file operation", "force_local (defined to override the cluster runner) is not used with the null runner"]
 COMPONENTS = {"real": ["storage backends, runner backends, MementoFunction call path", "tmpfs", "audit-hook FS seam"],
               "stub": ["uuid4 (seeded)", "clock (virtual)"]}
-REACH = ["ro_on_damaged_store", "ro_metadata_with_data_attempts", "ro_ops", "calls_served", "calls_executed", "ro_rejections", "null_storage_calls", "null_runner_calls", "mutation_events_armed"]
+REACH = ["null_runner_on_damaged_store", "ro_on_damaged_store", "ro_metadata_with_data_attempts", "ro_ops", "calls_served", "calls_executed", "ro_rejections", "null_storage_calls", "null_runner_calls", "mutation_events_armed"]
 
 
 def gen_ro_ops(rng, n, knobs):
@@ -46,9 +46,13 @@ def cases(tier, seed):
         rng = core.stream(s, "gen")
         if i % 3 == 2:
             mode = "null-storage" if rng.random() < 0.5 else "null-runner"
-            calls = [[rng.choice(["fa#1", "fab#1", "fb#2"]), rng.randrange(3), rng.choice(["call", "call", "batch", "ignore"])]
+            calls = [[rng.choice(["fa#1", "fab#1", "fb#2", "outer#3"]), rng.randrange(3),
+                      rng.choice(["call", "call", "batch", "ignore", "ctx", "ctx", "partial"])]
                      for _ in range(rng.randrange(2, 10))]
-            out.append({"seed": s, "mode": mode, "pre": rng.random() < 0.5, "ops": calls})
+            c = {"seed": s, "mode": mode, "pre": rng.random() < 0.6, "ops": calls}
+            if mode == "null-runner" and c["pre"] and rng.random() < 0.3:
+                c["damage"] = rng.choice(["data", "links"])     # result objects (or their links) lost after the store was filled
+            out.append(c)
             continue
         kn = storeops.gen_knobs(rng, backends=("fs", "fs+cache"))
         pop = storeops.gen_ops(rng, rng.randrange(4, 25), kn, "c07")
@@ -113,6 +117,15 @@ def _exec_ro(case):
     return ev[-1]
 
 
+NESTED_SRC = '''
+
+@m.memento_function(cluster="c5", version="3")
+def outer(x):
+    __vtrace__("outer", x)
+    return [fa(x), "outer"]
+'''
+
+
 def _exec_null(case):
     root = core.new_scratch("c19n")
     mode = case["mode"]
@@ -135,8 +148,8 @@ def _exec_null(case):
         os.makedirs(root + "/env", exist_ok=True)
         env = Environment(name="sim", base_dir=root + "/env", repos=[ConfigurationRepository(name="r", clusters={"c5": cl})])
         Environment.set(env)
-        mod = world.load_module("vstore", storeops.FN_SRC)
-        fns = {"fa#1": mod.fa, "fab#1": mod.fab, "fb#2": mod.fb}
+        mod = world.load_module("vstore", storeops.FN_SRC + NESTED_SRC)
+        fns = {"fa#1": mod.fa, "fab#1": mod.fab, "fb#2": mod.fb, "outer#3": mod.outer}
         if mode == "null-runner" and case["pre"]:
             # pre-populate the store through a local runner so that memoized results exist
             cl.runner = __import__("twosigma.memento.runner_local", fromlist=["x"]).LocalRunnerBackend()
@@ -144,6 +157,12 @@ def _exec_null(case):
                 fns[fn](x)
             cl.runner = NullRunnerBackend()
             side.take()
+            if case.get("damage"):
+                import glob
+                pat = "/data/c/.versions/*/*" if case["damage"] == "data" else "/data/c/*.link"
+                for pth in sorted(glob.glob(root + pat)):
+                    os.remove(pth)
+                st["null_runner_on_damaged_store"] = 1
         for i, (fn, x, how) in enumerate(case["ops"]):
             side.take()
             f = fns[fn]
@@ -153,6 +172,10 @@ def _exec_null(case):
                 elif how == "batch":
                     r = ["ok", f.call_batch([{"x": x}, {"x": x + 1}], raise_first_exception=False)]
                     r = ["ok", [values.summary(z) for z in r[1]]]
+                elif how == "ctx":
+                    r = ["ok", f.with_context_args({"k": 1})(x)]
+                elif how == "partial":
+                    r = ["ok", f.partial(x)()]
                 else:
                     r = ["ok", f.ignore_result()(x)]
             except Exception as e:  # noqa
@@ -161,7 +184,7 @@ def _exec_null(case):
             log.append([i, fn, x, how, r, runs])
             if mode == "null-storage":
                 st["null_storage_calls"] = st.get("null_storage_calls", 0) + 1
-                exp_runs = 2 if how == "batch" else 1
+                exp_runs = (2 if how == "batch" else 1) * (2 if fn == "outer#3" else 1)
                 if runs != exp_runs or r[0] != "ok":
                     viol.append(("null-storage-call-not-executed", {"how": how}, {"i": i, "runs": runs, "res": r}))
                 ref = f.fn_reference().with_args(x)
